@@ -47,6 +47,18 @@ func ResolveRef(root interface{}, ref *Ref) (*Schema, error) {
 			return nil, fmt.Errorf("%q points to a member which is not set: %w", ref.String(), ErrSpec)
 		}
 		return sch, nil
+	case *SchemaOrArray:
+		// "items" of a typed schema
+		if sch != nil && sch.Schema != nil {
+			return sch.Schema, nil
+		}
+		return nil, fmt.Errorf("type: %T: %w", sch, ErrUnknownTypeForReference)
+	case *SchemaOrBool:
+		// "additionalProperties" or "additionalItems" of a typed schema
+		if sch != nil && sch.Schema != nil {
+			return sch.Schema, nil
+		}
+		return nil, fmt.Errorf("type: %T: %w", sch, ErrUnknownTypeForReference)
 	case map[string]interface{}:
 		newSch := new(Schema)
 		if err = swag.DynamicJSONToStruct(sch, newSch); err != nil {
